@@ -71,7 +71,11 @@ def placeholder_items():
     sv = [Variant("S1", "named", [Field("u8", "a")], [tos("frame of {LIMIT} bytes")]), Variant("S2", "named", [Field("u8", "a"), Field("String", "bb")], [tos("limit {LIMIT}{UNIT}")]),
           Variant("S3", "named", [Field("usize", "w")], [tos("[{UNIT:>w$}]")]), Variant("S4", "named", [], [tos("{LIMIT}!")]),
           Variant("S5", "named", [Field("usize", "w"), Field("usize", "p"), Field("String", "bb")], [tos("{bb:>w$.p$}|{LIMIT:03}")]),
-          Variant("S6", "named", [Field("u8", "a")], [tos("{a} of {LIMIT}")])]
+          Variant("S6", "named", [Field("u8", "a")], [tos("{a} of {LIMIT}")]),
+          # named `$` parameters next to POSITIONAL ones (`0$`, `.*`): positions count the fields the literal prints by name, in declaration order
+          Variant("S7", "named", [Field("usize", "w"), Field("usize", "p"), Field("String", "bb")], [tos("{p}:{bb:>w$.0$}|")]),
+          Variant("S8", "named", [Field("usize", "w"), Field("usize", "p"), Field("String", "bb")], [tos("{p}/{bb:>w$.*}|")]),
+          Variant("S9", "named", [Field("usize", "p"), Field("String", "bb"), Field("usize", "w")], [tos("{bb:1$.p$}~{w}")])]
     items.append(Item("E", sv))
     # the braces of a placeholder may be WRITTEN as escapes (\x7b0\x7d is {0}): what counts is the value of the literal
     def styled(text, style):
@@ -146,6 +150,10 @@ def build_corpus(tier, rng):
             ext = {"u8": "255u8", "String": 'String::from("{br}aces \\u{e9}")', "i32": "i32::MIN", "usize": "17usize", "u16": "u16::MAX", "i64": "i64::MIN"}
             vals.append((i, [ext[f.ty] for f in v.fields], "extreme"))
             vals.append((i, ["Default::default()" for f in v.fields], "default"))
+            if sum(1 for f in v.fields if f.ty == "usize") >= 2:
+                # several parameters of one type: every field its own value (which field a `$` / `.*` parameter binds is observable)
+                nums = iter((9, 2, 5, 3, 7, 4))
+                vals.append((i, ["%dusize" % next(nums) if f.ty == "usize" else RR.SAMPLE[f.ty][0] for f in v.fields], "distinct"))
         c.meta[k]["vals"] = vals
         for j, (i, _, tag) in enumerate(vals):
             for sp in specs[:6]:
